@@ -35,14 +35,22 @@ def generate(rng, tier):
         c = Case("c10_%d" % i, "stream", bs, w, dm, tags=dict(kind=kind))
         c.op("new o %s new %s %s" % (kind, hx(key), hx(iv)))
         q = 0
+        force = None
         for step in range(rng.randint(2, 7)):
-            what = rng.choice(["seek", "seek", "apply", "apply", "pos", "pos"])
+            what = force or rng.choice(["seek", "seek", "apply", "apply", "pos", "pos"])
+            force = None
             if what == "seek":
                 T = rng.choice(list(TMAX))
                 span = min(TMAX[T], end_pos - 1)
                 p = rng.choice([0, 1, bs - 1, bs, bs + 1, q, max(0, q - 1), max(0, q - bs - 1), q + bs + 3,
                                 2 ** 32 - rng.randint(1, 3 * bs), 2 ** 32 + rng.randint(0, 3 * bs), 2 ** 64 - rng.randint(1, 3 * bs),
                                 2 ** 64 + rng.randint(0, 3 * bs), span - rng.randint(0, 3 * bs), rng.randint(0, span)])
+                if cbits == 128 and rng.random() < 0.35:
+                    # block indices that do not fit 64 bits (only reachable with u128 targets), offsets inside the block
+                    T = "u128"
+                    p = (rng.choice([2 ** 64, 2 ** 64 + rng.randint(1, 5), 2 ** 96 + rng.randint(0, 9), rng.randint(2 ** 64, 2 ** 120)])
+                         * bs + rng.choice([0, 1, bs - 1, rng.randint(0, bs - 1)]))
+                    force = "apply"           # and look at the bytes produced there
                 p = max(0, min(p, TMAX[T]))
                 blk, byte = divmod(p, bs)
                 if blk == 2 ** cbits - 1 and byte != 0:
